@@ -480,7 +480,8 @@ func (c *Ctx) runVarsCases(cases []varsCase, st *varsStats) {
 		resIx, supIx []int
 	}
 	var srefs []sref
-	const resBits = "000000,111111,100000,010000,001000,000100,000010,000001"
+	// strict, legacy, the six single leniencies, and "afterR14d" (all but flatNested)
+	const resBits = "000000,111111,100000,010000,001000,000100,000010,000001,111110"
 	const supBits = "000001,111111"
 	for k, i := range dix {
 		cs := cases[i]
@@ -551,7 +552,7 @@ func (c *Ctx) runVarsCases(cases []varsCase, st *varsStats) {
 	for k, v := range verdicts {
 		r := srefs[k]
 		groups := strings.Split(v, "|")
-		if len(groups) != 10 || len(groups[0]) != len(r.resIx) || len(groups[8]) != len(r.supIx) {
+		if len(groups) != 11 || len(groups[0]) != len(r.resIx) || len(groups[9]) != len(r.supIx) {
 			c.Report("correspondence", "judge-reply-shape", "judge reply: "+v[:min(200, len(v))], nil)
 			continue
 		}
@@ -566,6 +567,13 @@ func (c *Ctx) runVarsCases(cases []varsCase, st *varsStats) {
 				st.specViol["C14_conforms: returned value does not conform EVEN WITH every legacy leniency"]++
 				if _, ok := st.specEx["beyond-legacy-result"]; !ok {
 					st.specEx["beyond-legacy-result"] = ex
+				}
+			}
+			if groups[8][x] != '1' && groups[1][x] == '1' {
+				// conforms only when flatNested is granted to the RESULT: R14d (repaired by r14d.patch)
+				st.specViol["C14_conforms: returned value needs flatNested (does not conform with the five other leniencies)"]++
+				if old, ok := st.specEx["result-needs-flatNested(R14d)"]; !ok || len(ex) < len(old) {
+					st.specEx["result-needs-flatNested(R14d)"] = ex
 				}
 			}
 			any := false
@@ -585,11 +593,11 @@ func (c *Ctx) runVarsCases(cases []varsCase, st *varsStats) {
 		}
 		for x, vi := range r.supIx {
 			ex := fmt.Sprintf("$v: %s  vars %s → %s", cs.typ.String(), cs.vals[vi], goObs[r.ci][vi])
-			if groups[8][x] == '1' {
+			if groups[9][x] == '1' {
 				continue
 			}
 			st.specViol["C14_rejects: values returned although the supplied value is not coercible (strict)"]++
-			if groups[9][x] != '1' {
+			if groups[10][x] != '1' {
 				st.specViol["C14_rejects: values returned although the supplied value is not coercible EVEN WITH every legacy leniency"]++
 				if _, ok := st.specEx["beyond-legacy-supplied"]; !ok {
 					st.specEx["beyond-legacy-supplied"] = ex
